@@ -677,6 +677,9 @@ func refusalExpected(t *table, o opts, viaProc bool) (bool, string) {
 	if o.format == option.FIXED && o.positions != nil {
 		start := 0
 		for j, end := range o.positions {
+			if end <= start {
+				return true, "positions_not_increasing" // explicit positions the user got wrong: refused
+			}
 			w := end - start
 			start = end
 			tooLong := func(s string) bool { return text.ByteSize(s, o.enc) > w }
